@@ -234,7 +234,13 @@ impl AtomicUsize {
         if a {
             with(|rt| match r {
                 Ok(old) => changed(rt, self.addr(), old as u64, new as u64),
-                Err(_) => rt.contention.set(rt.contention.get() + 1),
+                Err(_) => {
+                    rt.contention.set(rt.contention.get() + 1);
+                    // the crate's only weak CAS is Transaction::commit: a lost race on the
+                    // head (multi-producer claim) or on a shared reader position
+                    let p = &rt.probes[Probe::MultiCasRetry as usize];
+                    p.set(p.get() + 1);
+                }
             });
         }
         r
